@@ -815,12 +815,14 @@ class Ops(SeriesOps):
     # -- query / apply
     def f_query(self, f, pos, kw, node):
         q = pos[0] if pos else kw.get("expr")
-        pred = self.parse_query(f, q, node)
+        pred = self.parse_query(f, q, node, local_dict=kw.get("local_dict"))
         g = f.derive(rows=T.and_(f.rows, pred))
         self.log("filter", node, src=f.obj, dst=g.obj, base=f.base, pred=pred, how="query")
         return g
 
-    def parse_query(self, f: Frame, q: Any, node) -> T.Term:
+    def parse_query(self, f: Frame, q: Any, node, local_dict=None) -> T.Term:
+        if local_dict is not None and not isinstance(local_dict, dict):
+            return T.opaque("query(local_dict=<not a known dict>)")
         holes: Dict[str, T.Term] = {}
         if isinstance(q, str):
             text = q
@@ -871,6 +873,8 @@ class Ops(SeriesOps):
                 if n.id in holes:
                     return holes[n.id]
                 if n.id.startswith("__at_"):
+                    if isinstance(local_dict, dict) and n.id[5:] in local_dict:
+                        return to_term(local_dict[n.id[5:]])          # @name is resolved in local_dict first
                     return to_term(self.I.lookup(n.id[5:], node))
                 return f.col(n.id)
             if isinstance(n, ast.Call) and isinstance(n.func, ast.Attribute) and not n.keywords and all(isinstance(a_, ast.Constant) or (isinstance(a_, ast.UnaryOp) and isinstance(a_.operand, ast.Constant)) for a_ in n.args):
